@@ -278,11 +278,15 @@ def cross(
     if index_ is None:
         return False
 
-    for idx in range(index_, index_ - length, -1):
+    # A cross needs the candle before it: the first candle can never be one
+    for idx in range(index_, max(index_ - length, 0), -1):
         reading_one = reading_by_index(candles, indicator_two, idx)
         reading_two = reading_by_index(candles, indicator_one, idx)
         prev_one = reading_by_index(candles, indicator_one, idx - 1)
         prev_two = reading_by_index(candles, indicator_two, idx - 1)
+
+        if None in (reading_one, reading_two, prev_one, prev_two):
+            continue
 
         if (reading_one < reading_two and prev_one <= prev_two) or (
             reading_one > reading_two and prev_one >= prev_two
@@ -302,7 +306,8 @@ def crossover(
     if index_ is None:
         return False
 
-    for idx in range(index_, index_ - length, -1):
+    # A cross needs the candle before it: the first candle can never be one
+    for idx in range(index_, max(index_ - length, 0), -1):
         if above(candles, indicator_one, indicator_two, idx) and below(
             candles, indicator_one, indicator_two, idx - 1
         ):
@@ -321,7 +326,8 @@ def crossunder(
     if index_ is None:
         return False
 
-    for idx in range(index_, index_ - length, -1):
+    # A cross needs the candle before it: the first candle can never be one
+    for idx in range(index_, max(index_ - length, 0), -1):
         if below(candles, indicator_one, indicator_two, idx) and above(
             candles, indicator_one, indicator_two, idx - 1
         ):
